@@ -19,7 +19,7 @@ structure Cache (K V : Type) where
   arch : Option (List (K × V))
   swap : Option (List (K × V))
   bare : Bool := false
-  deriving Repr
+  deriving Repr, DecidableEq
 
 variable {K V : Type} [DecidableEq K]
 
